@@ -32,6 +32,9 @@ pub struct Profile {
     /// bias closing strategy towards the inferred posting
     pub omitted_bias: bool,
     pub declare_precision_pct: u64,
+    /// probability (1/100) that a transaction uses magnitudes of 10^12..10^25 (no prices), so that
+    /// sums stay representable while products of two totals would not
+    pub huge_pct: u64,
 }
 
 pub const P_BALANCE: Profile = Profile {
@@ -44,6 +47,7 @@ pub const P_BALANCE: Profile = Profile {
     max_history: 4,
     omitted_bias: false,
     declare_precision_pct: 70,
+    huge_pct: 6,
 };
 
 pub const P_ASSERT: Profile = Profile {
@@ -56,6 +60,7 @@ pub const P_ASSERT: Profile = Profile {
     max_history: 5,
     omitted_bias: false,
     declare_precision_pct: 40,
+    huge_pct: 3,
 };
 
 pub const P_INFER: Profile = Profile {
@@ -68,6 +73,7 @@ pub const P_INFER: Profile = Profile {
     max_history: 5,
     omitted_bias: true,
     declare_precision_pct: 40,
+    huge_pct: 3,
 };
 
 /// Report-oriented: only accepted transactions matter, many dates.
@@ -81,6 +87,7 @@ pub const P_REPORT: Profile = Profile {
     max_history: 30,
     omitted_bias: true,
     declare_precision_pct: 50,
+    huge_pct: 2,
 };
 
 const VALUES: &[(i128, u32)] = &[
@@ -107,11 +114,13 @@ pub struct BookGen<'r> {
     pub txn_counter: usize,
     pub day: i64,
     pub stopped: bool,
+    /// the transaction being generated uses huge magnitudes
+    pub huge: bool,
 }
 
 fn finite(q: Q) -> Option<Dec> {
     let (m, s) = q.as_decimal_parts(12)?;
-    if m.abs() > 1_000_000_000_000_000 {
+    if m.abs() > 1_000_000_000_000_000_000_000_000_000 {
         return None;
     }
     Some(Dec::new(m, s))
@@ -128,6 +137,7 @@ impl<'r> BookGen<'r> {
             txn_counter: 0,
             day: 0,
             stopped: false,
+            huge: false,
         }
     }
 
@@ -209,7 +219,21 @@ impl<'r> BookGen<'r> {
         }
     }
 
+    fn huge_posting(&mut self) -> Post {
+        let account = self.rng.pick_str(ACCOUNTS).to_string();
+        let commodity = self.rng.pick_str(COMMODITIES).to_string();
+        let m = *self.rng.pick(&[1i128, 2, 5, 25, 7, -1, -3, -25]);
+        // <= 2.5e19: with up to 6 decimals and ~40 additions every sum stays a 96-bit decimal
+        let k = 12 + self.rng.below(7) as u32;
+        let mut d = Dec::new(m * 10i128.pow(k), 0);
+        d.grouped = self.rng.chance(1, 3);
+        Post::simple(&account, Amt { num: d, commodity })
+    }
+
     fn random_posting(&mut self) -> Post {
+        if self.huge {
+            return self.huge_posting();
+        }
         let account = self.rng.pick_str(ACCOUNTS).to_string();
         let commodity = self.rng.pick_str(COMMODITIES).to_string();
         let mut p = Post {
@@ -452,6 +476,7 @@ impl<'r> BookGen<'r> {
         let mut tags;
         let mut tries = 0;
         loop {
+            self.huge = self.rng.chance(self.profile.huge_pct, 100);
             let n = 1 + self.rng.usize(3);
             let mut posts: Vec<Post> = (0..n).map(|_| self.random_posting()).collect();
             label = if good_only {
@@ -480,6 +505,10 @@ impl<'r> BookGen<'r> {
                 self.close(&mut posts)
             };
             tags = self.decorate(&mut posts);
+            if self.huge {
+                tags.push("huge-magnitudes");
+            }
+            self.huge = false;
             let date = self.next_date();
             self.txn_counter += 1;
             let t = Txn {
